@@ -289,6 +289,11 @@ Proof.
   destruct (zlen src <? 10 + get16 (skipn 8 src) * 2) eqn:E; [exact I|].
   apply np_bind; [apply np_u16_array; lia|]. intros; exact I.
 Qed.
+Lemma clamp10_len first es : zlen (clamp10 first es) <= zlen es.
+Proof.
+  unfold clamp10. destruct (1114111 <? first); [rewrite zlen_nil; apply zlen_nonneg|].
+  unfold zfirstn, zlen. rewrite firstn_length. lia.
+Qed.
 Lemma np_parse_cmap10 src : bytes_ok src -> no_panic (parse_cmap10 src).
 Proof.
   intros Hb. unfold parse_cmap10. destruct (zlen src <? 20); [exact I|].
@@ -385,7 +390,10 @@ Proof.
     pose proof (get32_range (skipn 16 src) (ti_bytes_ok_skipn 16 src Hb)).
     destruct (zlen src <? _) eqn:E; [discriminate|].
     destruct (u16_array src 20 0 _) eqn:EA; cbn [bind]; try discriminate.
-    intros H1; inversion H1; subst; cbn [c6_entries]. apply u16_array_len in EA. unfold zlen at 1. rewrite EA. lia.
+    intros H1; inversion H1; subst; cbn [c6_entries]. apply u16_array_len in EA.
+    match goal with |- context[clamp10 ?f a] => pose proof (clamp10_len f a) as Hle end.
+    assert (Ha : zlen a = get32 (skipn 16 src)) by (unfold zlen; rewrite EA; lia).
+    apply Z.ltb_ge in E. lia.
   - revert H. unfold parse_cmap_groups. destruct (zlen src <? 16); [discriminate|].
     pose proof (get32_range (skipn 12 src) (ti_bytes_ok_skipn 12 src Hb)).
     destruct (zlen src <? _) eqn:E; [discriminate|].
